@@ -25,3 +25,17 @@ package vgirpc
 //@   modifies nothing
 //@   ensures result == -1 || (0 <= result && result < numCols(batch))
 //@   loop 0 invariant 0 <= ci && ci < n
+
+// parseTag: a declared default is taken from the tag VERBATIM — the option as strings.Split cut
+// it, minus the "default=" prefix, with nothing trimmed, folded or unescaped — and that is the
+// string stored in the field's tagInfo.
+// (the range runs over parts[1:] and `rangeindex` names the index BEFORE the increment, so the
+// current option is parts[2 + rangeindex])
+//
+//@ func parseTag
+//@   property C07
+//@   pathvar dv string
+//@   at call strings.TrimPrefix#1 assert [verbatim] arg0 == parts[2 + rangeindex] && arg1 == "default="
+//@   at call strings.TrimPrefix#1 setflag dv result
+//@   at store tagInfo.Default assert [stored] value != nil && *value == dv
+//@   at call strings.HasPrefix#1 assert [option] arg0 == parts[2 + rangeindex] && arg1 == "default="
